@@ -329,83 +329,185 @@ func (g *vgen) example(n *sNode) string { // a valid one-token example for scala
 	return g.valid(&n2).text
 }
 
-func (g *vgen) rules(n *sNode, optional bool) string {
-	var rs []string
-	if n.hasMin {
-		rs = append(rs, fmt.Sprintf("min: %d", n.min))
-	}
-	if n.hasMax {
-		rs = append(rs, fmt.Sprintf("max: %d", n.max))
-	}
-	if n.minLen >= 0 {
-		rs = append(rs, fmt.Sprintf("minLength: %d", n.minLen))
-	}
-	if n.maxLen >= 0 {
-		rs = append(rs, fmt.Sprintf("maxLength: %d", n.maxLen))
-	}
-	if n.rx >= 0 {
-		rs = append(rs, fmt.Sprintf("regex: \"%s\"", rxPool[n.rx].pattern))
-	}
-	if n.format != "" {
-		rs = append(rs, fmt.Sprintf("type: %q", n.format))
-	}
-	if len(n.enum) > 0 {
-		rs = append(rs, "enum: ["+strings.Join(n.enum, ", ")+"]")
-	}
-	if n.minItems >= 0 {
-		rs = append(rs, fmt.Sprintf("minItems: %d", n.minItems))
-	}
-	if n.maxItems >= 0 {
-		rs = append(rs, fmt.Sprintf("maxItems: %d", n.maxItems))
-	}
-	if optional {
-		rs = append(rs, "optional: true")
-	}
-	if n.nullable {
-		rs = append(rs, "nullable: true")
-	}
-	if len(rs) == 0 {
-		return ""
-	}
-	return " // {" + strings.Join(rs, ", ") + "}"
+// sPrinter prints a schema and records the offsets the corruption stream needs.
+type sPrinter struct {
+	g  *vgen
+	sb strings.Builder
+	// marks
+	valueStart map[*sNode]int   // first byte of the example value / shortcut / opening bracket
+	valueEnd   map[*sNode]int   // offset just after a scalar example or shortcut
+	keyStart   []int            // first byte of every property key
+	ruleName   map[*sNode][]int // first byte of every rule name of the node's annotation
+	// planted schema defects
+	badExample *sNode // print an example that violates the node's own rule
+	badRule    *sNode // rename the first rule of this node
+	badName    string
 }
 
-func (g *vgen) printSchema(n *sNode, indent int, lead, comma string, optional bool, out *[]string) {
+func newSPrinter(g *vgen) *sPrinter {
+	return &sPrinter{g: g, valueStart: map[*sNode]int{}, valueEnd: map[*sNode]int{}, ruleName: map[*sNode][]int{}}
+}
+
+func (p *sPrinter) rules(n *sNode, optional bool) {
+	type rule struct{ name, val string }
+	var rs []rule
+	if n.hasMin {
+		rs = append(rs, rule{"min", strconv.Itoa(n.min)})
+	}
+	if n.hasMax {
+		rs = append(rs, rule{"max", strconv.Itoa(n.max)})
+	}
+	if n.minLen >= 0 {
+		rs = append(rs, rule{"minLength", strconv.Itoa(n.minLen)})
+	}
+	if n.maxLen >= 0 {
+		rs = append(rs, rule{"maxLength", strconv.Itoa(n.maxLen)})
+	}
+	if n.rx >= 0 {
+		rs = append(rs, rule{"regex", `"` + rxPool[n.rx].pattern + `"`})
+	}
+	if n.format != "" {
+		rs = append(rs, rule{"type", strconv.Quote(n.format)})
+	}
+	if len(n.enum) > 0 {
+		rs = append(rs, rule{"enum", "[" + strings.Join(n.enum, ", ") + "]"})
+	}
+	if n.minItems >= 0 {
+		rs = append(rs, rule{"minItems", strconv.Itoa(n.minItems)})
+	}
+	if n.maxItems >= 0 {
+		rs = append(rs, rule{"maxItems", strconv.Itoa(n.maxItems)})
+	}
+	if optional {
+		rs = append(rs, rule{"optional", "true"})
+	}
+	if n.nullable {
+		rs = append(rs, rule{"nullable", "true"})
+	}
+	if len(rs) == 0 {
+		return
+	}
+	p.sb.WriteString(" // {")
+	for i, r := range rs {
+		if i > 0 {
+			p.sb.WriteString(", ")
+		}
+		p.ruleName[n] = append(p.ruleName[n], p.sb.Len())
+		name := r.name
+		if n == p.badRule && i == 0 {
+			name = p.badName
+		}
+		p.sb.WriteString(name + ": " + r.val)
+	}
+	p.sb.WriteString("}")
+}
+
+func (p *sPrinter) print(n *sNode, indent int, key, comma string, optional bool) {
+	w := p.sb.WriteString
 	pad := strings.Repeat("  ", indent)
+	w(pad)
+	if key != "" {
+		p.keyStart = append(p.keyStart, p.sb.Len())
+		w(key + ": ")
+	}
+	p.valueStart[n] = p.sb.Len()
 	switch n.kind {
 	case "obj":
 		if len(n.props) == 0 {
-			*out = append(*out, pad+lead+"{}"+comma+g.rules(n, optional))
+			w("{}" + comma)
+			p.rules(n, optional)
+			w("\n")
 			return
 		}
-		*out = append(*out, pad+lead+"{"+g.rules(n, optional))
-		for i, p := range n.props {
+		w("{")
+		p.rules(n, optional)
+		w("\n")
+		for i, pr := range n.props {
 			c := ","
 			if i == len(n.props)-1 {
 				c = ""
 			}
-			g.printSchema(p.val, indent+1, strconv.Quote(p.key)+": ", c, p.optional, out)
+			p.print(pr.val, indent+1, strconv.Quote(pr.key), c, pr.optional)
 		}
-		*out = append(*out, pad+"}"+comma)
+		w(pad + "}" + comma + "\n")
 	case "arr":
 		if len(n.items) == 0 {
-			*out = append(*out, pad+lead+"[]"+comma+g.rules(n, optional))
+			w("[]" + comma)
+			p.rules(n, optional)
+			w("\n")
 			return
 		}
-		*out = append(*out, pad+lead+"["+g.rules(n, optional))
+		w("[")
+		p.rules(n, optional)
+		w("\n")
 		for i, it := range n.items {
 			c := ","
 			if i == len(n.items)-1 {
 				c = ""
 			}
-			g.printSchema(it, indent+1, "", c, false, out)
+			p.print(it, indent+1, "", c, false)
 		}
-		*out = append(*out, pad+"]"+comma)
+		w(pad + "]" + comma + "\n")
 	case "ref", "or":
-		*out = append(*out, pad+lead+strings.Join(n.names, " | ")+comma+g.rules(n, optional))
+		w(strings.Join(n.names, " | "))
+		p.valueEnd[n] = p.sb.Len()
+		w(comma)
+		p.rules(n, optional)
+		w("\n")
 	default:
-		*out = append(*out, pad+lead+g.example(n)+comma+g.rules(n, optional))
+		if n == p.badExample {
+			w(p.g.violating(n))
+		} else {
+			w(p.g.example(n))
+		}
+		p.valueEnd[n] = p.sb.Len()
+		w(comma)
+		p.rules(n, optional)
+		w("\n")
 	}
+}
+
+// text of the schema without the final line break
+func (p *sPrinter) text() string { return strings.TrimSuffix(p.sb.String(), "\n") }
+
+// violating: an example of the node's kind that breaks one of the node's own rules ("" if it has none).
+func (g *vgen) violating(n *sNode) string {
+	r := g.r
+	var c []string
+	switch n.kind {
+	case "int", "float":
+		if n.hasMax {
+			c = append(c, numText(n.kind, n.max+1+r.Intn(5), r))
+		}
+		if n.hasMin {
+			c = append(c, numText(n.kind, n.min-1-r.Intn(5), r))
+		}
+		if len(n.enum) > 0 {
+			c = append(c, "77")
+		}
+	case "str":
+		if n.maxLen >= 0 {
+			c = append(c, strconv.Quote(strings.Repeat("x", n.maxLen+1+r.Intn(4))))
+		}
+		if n.minLen > 0 {
+			c = append(c, strconv.Quote(strings.Repeat("x", r.Intn(n.minLen))))
+		}
+		if n.rx >= 0 {
+			b := rxPool[n.rx].bad
+			c = append(c, strconv.Quote(b[r.Intn(len(b))]))
+		}
+		if n.format != "" {
+			b := formatPool[n.format][1]
+			c = append(c, strconv.Quote(b[r.Intn(len(b))]))
+		}
+		if len(n.enum) > 0 {
+			c = append(c, `"purple"`)
+		}
+	}
+	if len(c) == 0 {
+		return ""
+	}
+	return c[r.Intn(len(c))]
 }
 
 type docPrinter struct {
@@ -715,7 +817,7 @@ func validateWithDeadline(c vcase, doc []byte) (pos int, desc string, msg string
 func runValidatePos(rep *vh.Report) {
 	r := vh.NewRand(17001)
 	n := vh.Pick(11000, 250000)
-	for i := 0; i < n; i++ {
+	for i, flat := 0, 0; i < n; i++ {
 		g := &vgen{r: r, types: map[string]*sNode{}, order: []string{"root", "@t1", "@t2", "@t3"}}
 		// types are generated from the last one backwards so that references only point to defined types
 		for lvl := len(g.order) - 1; lvl >= 0; lvl-- {
@@ -727,9 +829,9 @@ func runValidatePos(rep *vh.Report) {
 		}
 		var c vcase
 		for lvl, nm := range g.order {
-			var lines []string
-			g.printSchema(g.types[nm], 0, "", "", false, &lines)
-			txt := strings.Join(lines, "\n")
+			sp := newSPrinter(g)
+			sp.print(g.types[nm], 0, "", "", false)
+			txt := sp.text()
 			if lvl == 0 {
 				c.schema = txt
 			} else {
@@ -737,10 +839,21 @@ func runValidatePos(rep *vh.Report) {
 			}
 		}
 		root := g.types["root"]
-		doc := g.valid(root)
-		holder := &doc
+		var doc *dNode
 		var plants []plant
-		g.collect(root, doc, func(nd *dNode) { *holder = nd }, 0, &plants)
+		holder := &doc
+		for try := 0; try < 6; try++ { // prefer documents that offer a site below the root
+			doc = g.valid(root)
+			plants = plants[:0]
+			g.collect(root, doc, func(nd *dNode) { *holder = nd }, 0, &plants)
+			deep := false
+			for _, pl := range plants {
+				deep = deep || !strings.HasSuffix(pl.class, "@depth0")
+			}
+			if deep {
+				break
+			}
+		}
 		nl := []string{"\n", "\n", "\r\n", "\r"}[r.Intn(4)]
 		// the unmutated document must be accepted (sampled: one case in eight)
 		if i%8 == 0 {
@@ -762,6 +875,16 @@ func runValidatePos(rep *vh.Report) {
 		if len(plants) == 0 {
 			rep.Stat("no_plantable_violation")
 			continue
+		}
+		onlyRoot := true
+		for _, pl := range plants {
+			onlyRoot = onlyRoot && strings.HasSuffix(pl.class, "@depth0")
+		}
+		if onlyRoot {
+			if flat++; flat%4 != 0 { // keep one in four of the flat cases
+				i--
+				continue
+			}
 		}
 		// choose a class first (uniform over the classes present), then a site: rare classes get their share
 		byClass := map[string][]plant{}
